@@ -279,6 +279,56 @@ def judge_c13(d):
     return None
 
 
+def _pipe_log(q):
+    t = q.split()
+    T = int(t[2]); n = int(t[3])
+    ent = [(int(t[4 + 4 * i]), t[5 + 4 * i], t[6 + 4 * i], t[7 + 4 * i]) for i in range(n)]
+    return T, ent
+
+
+def judge_c02(d):
+    q, impl, model = d["query"], d["impl"], d["model"]
+    if q.split()[1] == "hung":
+        return "exchange() never returned although all endpoints were silent (tunnel stalls instead of being torn down)"
+    if impl == "ok" and model != "ok":
+        return "exchange() returned Ok although not both directions ended cleanly (model: %s)" % model[:200]
+    if model == "ok" and impl != "ok":
+        return "both directions ended cleanly but exchange() returned %s" % impl
+    if model.startswith("diverge"):
+        T, ent = _pipe_log(q)
+        for dr in ("0", "1"):
+            rd = b""; dl = b""
+            for (_, dd, call, resp) in ent:
+                if dd != dr: continue
+                if resp.startswith("chunk:"): rd += unhex(resp[6:])
+                if call.startswith("write:") and resp.startswith("accepted:"):
+                    dl += unhex(call[6:])[:int(resp[9:])]
+            if not rd.startswith(dl):
+                return "direction %s delivered bytes that are not a prefix of what was read" % dr
+    return None
+
+
+def judge_c14(d):
+    q, impl, model = d["query"], d["impl"], d["model"]
+    if q.split()[1] == "hung":
+        return "idle tunnel never closed (no expiry within 60 T of virtual time)"
+    try:
+        T, ent = _pipe_log(q)
+    except Exception:
+        return None
+    prog = [t for (t, _, call, resp) in ent if (call == "read" and (resp.startswith("chunk:") or resp == "eof")) or (call == "waitwritable" and resp == "unit")]
+    a = max(prog) if prog else 0
+    if impl.startswith("timedout"):
+        c = int(impl.split()[1])
+        if c <= a + T - (1 if False else 0) and c - a < T:
+            return "tunnel closed by the idle timer at %d ms although data was transferred at %d ms (T = %d)" % (c, a, T)
+        if c > a + 2 * T:
+            return "idle tunnel closed at %d ms, later than 2T after its last activity at %d ms (T = %d)" % (c, a, T)
+    if model.startswith("timedout") and not impl.startswith("timedout") and impl in ("running",):
+        return "idle tunnel was not closed when the model's timer expired (%s)" % model
+    return None
+
+
 PROPS = {
     "C03": dict(
         suites=["c03"],
@@ -407,5 +457,36 @@ PROPS = {
                  "the wizard and the client export use toml_edit's own string encoder: their round trips are exercised, not proved",
                  "base64 crate = the modelled standard padded alphabet (tied by the registry verdicts)"],
         assumptions=[],
+    ),
+    "C02": dict(
+        suites=["c02"],
+        judge=judge_c02,
+        level="proof",
+        rule="3000 (thorough 40000) random duplex scripts: per direction 0-4 chunks (sizes 0,1,2,3,5,8) then EOF / read error / silence, "
+             "delays incl. 0 and multiples of the idle timeout, sink quotas {0,1,2,3,all} per write, wait_writable delays, errors "
+             "injected in read / write / wait_writable / consume / eof / flush; the real DuplexPipe::exchange runs on a paused-clock "
+             "current-thread runtime; every endpoint call is logged with its virtual timestamp, replayed through the Lean machine "
+             "(which must predict each call) and checked by a direct oracle (prefix, credit, eof order, nothing after failure)",
+        explanation="theorems stream_invariant, delivered_is_prefix, credit_*, finished_complete, eof_only_when_drained, eof_after_writes, "
+                    "restart_preserves, no_call_after_failure, duplex_* about TT/Model/Pipe.lean for every answer sequence",
+        trusted=["cancel-safety of Source::read (scripted sources are cancel-safe; real h2/TCP sources are assumed to be)",
+                 "tokio try_select / timeout semantics; a pending flush() is never cancelled in the scripts (flush delays are 0): "
+                 "cancellation of a pending flush is not modelled",
+                 "real TcpForwarder / HTTP/2 / HTTP/3 endpoints are replaced by scripted ones (their sinks' partial-write contracts are the "
+                 "quota scripts); HTTP/2 WINDOW_UPDATE == consume() argument is h2's contract"],
+        assumptions=[],
+    ),
+    "C14": dict(
+        suites=["c14"],
+        judge=judge_c14,
+        level="proof",
+        rule="the same machinery as C02 with every delay drawn from {0, T/4, T/2, 3T/4, T-1, T, T+1, 5T/4, 2T-1, 2T, 2T+1, 3T}: one-sided "
+             "traffic, traffic exactly at the deadline, back-pressure stalls; the virtual time at which exchange() returns TimedOut is "
+             "compared with the Lean timer model fed with the logged transfer times",
+        explanation="theorems idle_not_early, idle_bound_2T, progress_at_deadline_keeps_open, wf_step about the Timer model of TT/Model/Pipe.lean",
+        trusted=["tokio's timer wheel under the paused clock (ms granularity); with a real clock timers fire late by the scheduling latency, "
+                 "which the model's exact clock does not include",
+                 "connect / TLS-handshake timeouts are tokio::time::timeout wrappers: exercised by the C10 suite (connect) only"],
+        assumptions=["a direction whose peer has already finished is closed after T (not 2T) of silence: within the stated bound"],
     ),
 }
